@@ -19,7 +19,7 @@ BOUNDS = {"quick": {"requests": 4, "modes": 4, "gap_s": "[0,4] real", "hold_s": 
 ASSUMPTIONS = ["non-game modes (game modes need a player: C11 covers device state across players)", "bounded liveness: start/stop must complete within 6 s of virtual time",
                "registry snapshot ignores handler keys (uuids) and compares (event, handler qualname, priority, kwargs) multisets"]
 BUDGET = {"quick": 100, "thorough": 600}
-REQ = ["start_ev", "stop_ev", "start_direct", "stop_direct", "wait", "restart_from_stopped", "stop_in_starting", "delayed_control", "switch_hit", "start_prio", "start_other"]
+REQ = ["start_ev", "stop_ev", "start_direct", "stop_direct", "wait", "restart_from_stopped", "stop_in_starting", "delayed_control", "switch_hit", "start_prio", "start_other", "timer_pause"]
 
 
 def setup(part):
@@ -119,6 +119,8 @@ def body(S, t, part):
             mode.stop()
         elif rq == "delayed_control":
             m.events.post("mrich_enable_later")
+        elif rq == "timer_pause":
+            m.events.post("mrich_timer_pause")          # timed pause (2 s) of the mode's timer: a pending resume when the mode stops
         elif rq == "switch_hit":
             m.switch_controller.process_switch("s_b", 1, logical=True)
         elif rq == "game_start":
@@ -191,9 +193,11 @@ def scenarios(tier):
         alpha = list(base_alpha)
         if mode == "mrich":
             alpha.append("delayed_control")
+            alpha.append("timer_pause")
         firsts = [["start_ev"], ["stop_in_starting"], ["start_direct", "restart_from_stopped"]]
         if mode == "mrich":
             firsts.append(["start_ev", "delayed_control", "stop_ev"])
+            firsts.append(["start_ev", "timer_pause", "stop_ev"])
         for f in firsts:
             parts.append(dict(mode=mode, reqs=f, n=len(f) + (2 if tier == "quick" else 3), alphabet=alpha))
     for mode in ("mplain", "mwait"):
